@@ -155,6 +155,9 @@ CC_DEFS = r'''
 static Scalar *COLNORMS(RP *self) { Scalar *p = VEC_NEW(self->m_residues.cols); self->g_norms = p; return p; }
 /* BoolArray::Zero(n) */
 static _Bool *BVEC_ZERO(Index n) { _Bool *p = BVEC_NEW(n); if (0 <= g_i && g_i < n) p[g_i] = 0; return p; }
+/* a.conservativeResizeLike(BoolArray::Zero(n)): the leading min(old, n) entries are kept, further entries are zero */
+static _Bool *BVEC_RESIZE_KEEP(_Bool *old, Index n)
+{ _Bool *p = BVEC_NEW(n); if (0 <= g_i && g_i < n) p[g_i] = (g_i < VEC_SIZE(old)) ? old[g_i] : 0; return p; }
 '''
 
 
@@ -186,7 +189,10 @@ def f_check_convergence(report):
            "__CPROVER_decreases(VEC_SIZE(norms) - %(J)s)") % {"J": J, "CV": CV}
     t, R = cgen.emit(f, "check_convergence", ret_c="_Bool", self_type="RP", members=RP_MEMBERS, param_types={"tol": "Scalar"},
                      extra_rules=[("norms", r"const Array norms = self->m_residues\.colwise\(\)\.norm\(\);", "Scalar *norms = COLNORMS(self);", {"max": 1}),
-                                  ("zero", r"self->m_root_converged = BoolArray::Zero\(norms\.size\(\)\);", "self->m_root_converged = BVEC_ZERO(VEC_SIZE(norms)); self->st_conv = self->st_pairs;", {"max": 1}),
+                                  ("zero", r"self->m_root_converged = BoolArray::Zero\(norms\.size\(\)\);", "self->m_root_converged = BVEC_ZERO(VEC_SIZE(norms)); self->st_conv = self->st_pairs;", {"min": 0, "max": 1}),
+                                  # alternative (re)allocation idiom: resize keeping the old leading entries, new entries zero
+                                  ("zero-keep", r"self->m_root_converged\.conservativeResizeLike\(BoolArray::Zero\(norms\.size\(\)\)\);",
+                                   "self->m_root_converged = BVEC_RESIZE_KEEP(self->m_root_converged, VEC_SIZE(norms)); self->st_conv = self->st_pairs;", {"min": 0, "max": 1}),
                                   ("size", r"\bnorms\.size\(\)", "VEC_SIZE(norms)", {"min": 1}),
                                   ("bool", r"\bbool\b", "_Bool", {"min": 1}),
                                   # ghost witness for the `false` direction: the first requested pair that failed the test
@@ -194,6 +200,8 @@ def f_check_convergence(report):
                                   ("witness", r"((?<!Bool )\b%s\s*(?:&=|=)(?!=)[^;]*;)" % CV, r"\1 if (!%s && g_w < 0) g_w = %s;" % (CV, J), {"min": 1}),
                                   ],
                      loop_contracts={0: inv}, contract=spec.frame_contract())
+    if R.fired.get("x:zero", 0) + R.fired.get("x:zero-keep", 0) != 1:
+        raise X.ExtractionBreak("check_convergence: (re)allocation of the flag array not recognised")
     report["RitzPairs::check_convergence"] = R.fired
     return CC_DEFS + t, spec
 
